@@ -104,7 +104,7 @@ func c24SchedRun(r *vrt.R) {
 		// there is no connected server yet ("edge case when packet with FML client handshake arrives after
 		// JoinGame"); the JoinGame handling on the backend loop completes the client phase, drains the queue and
 		// completes the join.
-		{Name: "play-firstjoin-vs-2fml", Quick: 2, Thorough: -1, Body: c24FirstJoinBody},
+		{Name: "play-firstjoin-vs-2fml", Quick: 2, Thorough: 4, Body: c24FirstJoinBody},
 	})
 }
 
